@@ -221,6 +221,8 @@ def run(prop, tier, replay, make_plan, level="model_checking", panic_props=("C01
         "theories": sorted(plan.by_theory),
         "generator_states": plan.gen_states,
         "design_runs": design_info,
+        "design_reproduction_of_known_findings": (json.load(open(os.path.join(vlib.WORK, "c17_design.json")))
+                                                  if prop == "C17" and tier == "thorough" and os.path.exists(os.path.join(vlib.WORK, "c17_design.json")) else None),
         "notes": plan.notes,
         "exhaustive": False,
         "explanation": explanation,
